@@ -409,6 +409,49 @@ Section G.
     | r => r
     end.
 
+  (* ---------------- builders' insert_nested / insert_cfg / insert_conditional / insert_tail_loop
+     (build/dfg.py _insert_nested_impl): insert_hugr under the builder's parent node, then _wire_up of the
+     image of the root: one add_link per wire (wires whose source is a sibling of the inserted root, so
+     that _wire_up_port adds no order link) and _update_port_count with the counts of the operation's
+     signature (given: operations are opaque here). *)
+  Fixpoint wire_up (A : hugr) (node : nid) (i : Z) (wires : list port) : hugr * res :=
+    match wires with
+    | [] => (A, Ok)
+    | w :: rest => match add_link A w (node, i) with
+                   | (A1, Ok) => wire_up A1 node (i + 1) rest
+                   | r => r
+                   end
+    end.
+  Definition update_port_count (A : hugr) (n : nid) (num_inps num_outs : option Z) : hugr * res :=
+    match num_inps, num_outs with
+    | None, None => (A, Ok)
+    | _, _ =>
+        let r1 := match num_inps with
+                  | None => inl A
+                  | Some k => match get_node A n with None => inr EKey | Some d => inl (set_node A n (set_inps d k)) end
+                  end in
+        match r1 with
+        | inr e => (A, e)
+        | inl A1 => match num_outs with
+                    | None => (A1, Ok)
+                    | Some k => match get_node A1 n with None => (A1, EKey) | Some d => (set_node A1 n (set_outs d k), Ok) end
+                    end
+        end
+    end.
+  Definition insert_wrapped (A B : hugr) (parent : nid) (wires : list port) (num_inps num_outs : option Z)
+    : hugr * mapping * res :=
+    match insert_hugr A B (Some parent) with
+    | (A1, m, Ok) =>
+        match mget m (root B) with
+        | None => (A1, m, EKey)
+        | Some r' => match wire_up A1 r' 0 wires with
+                     | (A2, Ok) => let '(A3, r) := update_port_count A2 r' num_inps num_outs in (A3, m, r)
+                     | (A2, e) => (A2, m, e)
+                     end
+        end
+    | r => r
+    end.
+
   (* ---------------- histories ---------------- *)
   Inductive ret := RUnit | RNode (n : nid) | RMap (m : mapping).
   Inductive bcmd :=
